@@ -76,32 +76,32 @@ P = {
         # key store, trust store and request streams (no in-package access needed) share one driver binary
         "name": "misc", "pkg": "./internal/zzverif/c19gen", "test": "TestVerifC19Misc", "overlay": _KS,
         "eval_module": "Run.Eval_C19", "check_term": "check_misc " + _FX,
-        "n_quick": 460, "n_thorough": 14000, "findings": _KF, "env": _ENV,
+        "n_quick": 460, "n_thorough": 9000, "findings": _KF, "env": _ENV,
     }, {
         "name": "signer", "pkg": "./internal/rules/mechanisms/finalizers", "test": "TestVerifC19Signer",
         "overlay": _ov({"internal/rules/mechanisms/finalizers/zz_verif_c19_test.go": "c19/signer_test.go"}),
         "eval_module": "Run.Eval_C19", "check_term": "check_reload " + _FX,
-        "n_quick": 250, "n_thorough": 6000, "findings": _KF, "env": _ENV,
+        "n_quick": 250, "n_thorough": 2500, "findings": _KF, "env": _ENV,
     }, {
         "name": "tls", "pkg": "./internal/x/tlsx", "test": "TestVerifC19TLS",
         "overlay": _ov({"internal/x/tlsx/zz_verif_c19_test.go": "c19/tls_test.go"}),
         "eval_module": "Run.Eval_C19", "check_term": "check_reload " + _FX,
-        "n_quick": 150, "n_thorough": 4000, "findings": _KF, "env": _ENV,
+        "n_quick": 150, "n_thorough": 1500, "findings": _KF, "env": _ENV,
     }, {
         "name": "httpsig", "pkg": "./internal/rules/endpoint/authstrategy", "test": "TestVerifC19HttpSig",
         "overlay": _ov({"internal/rules/endpoint/authstrategy/zz_verif_c19_test.go": "c19/httpsig_test.go"}),
         "eval_module": "Run.Eval_C19", "check_term": "check_reload " + _FX,
-        "n_quick": 200, "n_thorough": 6000, "findings": _KF, "env": _ENV,
+        "n_quick": 200, "n_thorough": 2500, "findings": _KF, "env": _ENV,
     }, {
         "name": "rules", "pkg": "./internal/rules", "test": "TestVerifC19Rules",
         "overlay": _ov({"internal/rules/zz_verif_c19_test.go": "c19/rules_test.go"}),
         "eval_module": "Run.Eval_C19", "check_term": "check_rules " + _FX,
-        "n_quick": 200, "n_thorough": 10000, "findings": _KF, "env": _ENV, "shard": 100,
+        "n_quick": 200, "n_thorough": 4000, "findings": _KF, "env": _ENV, "shard": 100,
     }, {
         "name": "fs", "pkg": "./internal/rules/provider/filesystem", "test": "TestVerifC19FS",
         "overlay": _ov({"internal/rules/provider/filesystem/zz_verif_c19_test.go": "c19/fs_test.go"}),
         "eval_module": "Run.Eval_C19", "check_term": "check_fs " + _FX,
-        "n_quick": 200, "n_thorough": 6000, "findings": _KF, "env": _ENV,
+        "n_quick": 200, "n_thorough": 4000, "findings": _KF, "env": _ENV,
     }],
     "extra_coverage": _goroutine_inventory,
     "rule": "six drivers / eight streams against the real code. keystore/truststore: compositions of 24 fixture PEM blocks (RSA 1024-4096, EC P-224..P-521, "
@@ -113,7 +113,11 @@ P = {
             "non-string-keyed maps, structural edits), truncation of the YAML text at every offset and random multi-mutations through "
             "ParseRules, the real processor, rule factory, REAL mechanism factory (catalogue with every mechanism type) and repository; "
             "fs: real files (truncated at every offset, empty, missing, ENOTDIR, FIFO unlinked before EOF) through the provider's "
-            "ruleSetsChanged for every fsnotify op / previous state / processor answer. Non-trivial = the input is not a plainly valid "
+            "ruleSetsChanged for every fsnotify op / previous state / processor answer; request: recovery middleware + real error handler "
+            "around handlers panicking with values of every kind, composite extractor over stub strategies; remote: real jwt / "
+            "oauth2_introspection authenticators and remote authorizer against an httptest server answering a valid JWKS / introspection / "
+            "authorization document truncated at every offset, byte-flipped or with each JSON node replaced by values of 10 other types, "
+            "and a valid JWT truncated at every offset. Non-trivial = the input is not a plainly valid "
             "single-block store / reached the factory / made the provider call the processor, fail or exit; distinct by hash of the input.",
     "anchors": ["internal/rules/mechanisms/finalizers/jwt_signer.go", "internal/x/tlsx/key_store.go",
                 "internal/rules/endpoint/authstrategy/http_message_signatures.go", "internal/keystore/key_store.go",
@@ -130,8 +134,10 @@ P = {
                 "goroutine attribution is by reading: OnChanged runs under `go listener.OnChanged` (watcher_impl.go) and the providers' "
                 "watch loops without recover; the drivers call the same methods synchronously and catch the panic",
                 "httpsig.NewSigner is assumed to succeed for a supported key (observed on every run)",
-                "request goroutines: only the recovery middleware and the composite extractor are modelled; malformed tokens / JWKS / "
-                "introspection responses are not swept by this check (C01/C10 streams exercise those paths)"],
+                "request goroutines: the recovery middleware and the composite extractor are modelled; for remote documents and tokens "
+                "the model only says that the complete valid document is accepted and a cut / certainly invalid one never ends in "
+                "success (JSON / JOSE parsing is not modelled); arbitrary request lines, headers and bodies through the assembled "
+                "services are left to the C01/C13 streams"],
     "level_text": "Proof (kernel-checked, no axioms) that the modelled loaders of the tree as it is now - key store creation incl. chain "
                   "building, the hot reload of jwt signer / TLS key store / http message signatures, trust store, rule factory over "
                   "the decoded YAML value tree + rule-set processor, file-system provider event handler, recovery middleware - never "
